@@ -39,9 +39,13 @@ func DrawValueExpr(t *rapid.T, label string, depth int) ast.Expr {
 		return &ast.SelectorExpr{X: DrawValueExpr(t, label+"x", depth-1), Sel: DrawIdent(t, label+"sel")}
 	case 5:
 		n := rapid.IntRange(0, 2).Draw(t, label+"argc")
-		c := &ast.CallExpr{Fun: DrawIdent(t, label+"f")}
+		c := &ast.CallExpr{Fun: DrawIdent(t, label+"f"), Lparen: 1, Rparen: 1}
 		for i := 0; i < n; i++ {
 			c.Args = append(c.Args, DrawValueExpr(t, fmt.Sprintf("%sa%d", label, i), depth-1))
+		}
+		if n > 0 && rapid.IntRange(0, 2).Draw(t, label+"variadic") == 0 {
+			c.Args[n-1] = DrawIdent(t, label+"va")
+			c.Ellipsis = 1
 		}
 		return c
 	case 6:
@@ -314,7 +318,9 @@ func Mutate(t *rapid.T, m *Mined, inst *Instance, label string) string {
 		apply func()
 	}
 	var cells []cell
-	add := func(tag string, f func()) { cells = append(cells, cell{tag, f}) }
+	target := &cells
+	skipFillers := true
+	add := func(tag string, f func()) { *target = append(*target, cell{tag, f}) }
 
 	var visit func(v reflect.Value, inFiller bool)
 	visit = func(v reflect.Value, inFiller bool) {
@@ -323,7 +329,7 @@ func Mutate(t *rapid.T, m *Mined, inst *Instance, label string) string {
 				return
 			}
 			if v.Kind() == reflect.Ptr {
-				if n, ok := v.Interface().(ast.Node); ok && inst.Fillers[n] {
+				if n, ok := v.Interface().(ast.Node); ok && skipFillers && inst.Fillers[n] {
 					return
 				}
 			}
@@ -464,17 +470,22 @@ func Mutate(t *rapid.T, m *Mined, inst *Instance, label string) string {
 			return true
 		}, nil)
 		if occ >= 2 {
-			add("metavar:inconsistent", func() {
-				s := occs[rapidIdx(t, label+"incons"+name, len(occs))]
-				switch x := s.Node().(type) {
-				case *ast.Ident:
-					s.Set(&ast.Ident{Name: x.Name + "Q"})
-				default:
-					if s.Type() == exprIface {
-						s.Set(&ast.ParenExpr{X: x.(ast.Expr), Lparen: 1, Rparen: 1})
-					}
-				}
-			})
+			// One occurrence is made to differ from the others in exactly one
+			// field (any field the generic mutator knows), or is parenthesised.
+			s := occs[rapidIdx(t, label+"incons"+name, len(occs))]
+			var inner []cell
+			target, skipFillers = &inner, false
+			visit(reflect.ValueOf(s.Node()), false)
+			target, skipFillers = &cells, true
+			for _, ic := range inner {
+				ic := ic
+				add("metavar:inconsistent/"+ic.tag, ic.apply)
+			}
+			if s.Type() == exprIface {
+				add("metavar:inconsistent/paren", func() {
+					s.Set(&ast.ParenExpr{X: s.Node().(ast.Expr), Lparen: 1, Rparen: 1})
+				})
+			}
 		}
 		if m.Holes[name] == ref.IdentHole && occ >= 1 {
 			add("metavar:ident-kind", func() {
@@ -726,6 +737,8 @@ func FindInsertionPoints(src []byte) (*InsertionPoints, error) {
 		}
 	}
 	ip.Decl = append(ip.Decl, len(src))
+	sort.Ints(ip.Stmt)
+	sort.Ints(ip.Decl)
 	return ip, nil
 }
 
